@@ -75,7 +75,7 @@ func SeqProfileFor(name string, seed int64) SeqProfile {
 		p.MaxBody = 6 // deletes and inserts alternating between blocks inside one transaction: several marker sections per block
 	case "c15": // stream: multi-block transactions, read-only and rolled-back transactions, both transports
 		p.Cols = []ColDesc{{"a", "int", "add", numRepr()}, {"s", "str", "", "string"}}
-		p.Prologue = []string{"block1", "three", "block1"}[r.Intn(3)]
+		p.Prologue = []string{"block1", "three", "three"}[r.Intn(3)] // (three blocks: transactions whose blocks are not contiguous)
 		p.PRollback, p.PFailIns = 0.2, 0.1
 		p.MaxBody = 5
 		p.Replica = r.Intn(2) == 0
